@@ -424,6 +424,116 @@ def forms_worker(job):
     return acc
 
 
+# ------------------------------------------------------------------ connections tunneled through a jump host
+def tunnel_cases():
+    pats = ['target.example', 'jump.example', '@JUMPADDR', '@TARGETADDR', '*', 'jump.example,@JUMPADDR', 'target.example,@TARGETADDR']
+    out = []
+    for presented in ('KT', 'KJ'):
+        for p1 in pats:
+            for k1 in ('KT', 'KJ'):
+                for m1 in ('', '@revoked'):
+                    out.append((presented, ((m1, p1, k1),)))
+                    for p2 in ('target.example', '@JUMPADDR'):
+                        for k2 in ('KT', 'KJ'):
+                            out.append((presented, ((m1, p1, k1), ('', p2, k2))))
+    return out
+
+
+def tunnel_run(case):
+    """client -> jump host -> target: the target's host key is looked up for the target's *name* only (its address
+    is not known to the client; the jump host's address certainly is not the target's).  A key listed for the
+    jump host's name or address must not vouch for the target."""
+    presented, lines = case
+    loop = P.fresh(0)
+    P.install_wire_labels()
+    keys = {'KT': P.key('c04-target'), 'KJ': P.key('c04-jump')}
+    log = []
+    try:
+        class Srv(P.RecServer):
+            def connection_requested(self, dest_host, dest_port, orig_host, orig_port):
+                return True
+
+        class Target(P.RecServer):
+            def validate_password(self, username, password):
+                log.append(('password', username, password))
+                return True
+
+        async def setup():
+            j = await asyncssh.listen('jump.example', 22, server_factory=lambda: Srv({}), server_host_keys=[keys['KJ']], keepalive_interval=0)
+            t = await asyncssh.listen('target.example', 22, server_factory=lambda: Target({}), server_host_keys=[keys[presented]], keepalive_interval=0)
+            return j, t
+        st = loop.create_task(setup())
+        loop.flush_all()
+        st.result()
+        import hashlib
+
+        def fake_addr(name):
+            h = hashlib.sha256(name.encode()).digest()
+            return '10.%d.%d.%d' % (h[0], h[1], h[2] or 1)
+        sub = {'@JUMPADDR': fake_addr('jump.example'), '@TARGETADDR': fake_addr('target.example')}
+        text = ''
+        for m, p, k in lines:
+            pp = ','.join(sub.get(x, x) for x in p.split(','))
+            text += '%s%s %s\n' % (m + ' ' if m else '', pp, keys[k].export_public_key('openssh').decode().strip())
+        out = {}
+
+        async def go():
+            jc = await asyncssh.connect('jump.example', 22, known_hosts=None, username='u', password='pw', client_keys=None,
+                                        agent_path=None, config=None, kex_algs=['curve25519-sha256'])
+            try:
+                tc = await asyncssh.connect('target.example', 22, tunnel=jc, known_hosts=text.encode(), username='alice', password='secret',
+                                            client_keys=None, agent_path=None, config=None, kex_algs=['curve25519-sha256'])
+                out['peer'] = tc.get_extra_info('peername')
+                tc.close()
+                return 'connected'
+            except (asyncssh.Error, OSError) as exc:
+                return type(exc).__name__
+            finally:
+                jc.close()
+        t = loop.create_task(go())
+        loop.flush_all(horizon=100000)
+        res = t.result() if t.done() and not t.exception() else ('pending' if not t.done() else repr(t.exception()))
+        return res, list(log), out.get('peer'), text, loop.unretrieved()
+    finally:
+        P.done(loop)
+
+
+def tunnel_worker(job):
+    acc = core.Acc()
+    for case in job:
+        presented, lines = case
+        try:
+            res, log, peer, text, lexc = tunnel_run(case)
+        except Exception as exc:            # pylint: disable=broad-except
+            acc.violation('trust:harness:tunnel', repr(exc), {'kind': 'tunnel', 'case': repr(case)})
+            continue
+        trusted = revoked = False
+        for m, p, k in lines:
+            names = p.split(',')
+            if k == presented and ('target.example' in names or '*' in names):
+                if m == '@revoked':
+                    revoked = True
+                else:
+                    trusted = True
+        want = trusted and not revoked
+        acc.add(core.digest(('tunnel', case, res)), transitions=2,
+                sample={'tunneled_target_presents': presented, 'known_hosts': text[:200].replace(chr(10), ' | '), 'result': res}
+                if presented == 'KJ' and any('@JUMPADDR' in l[1] for l in lines) and len(lines) == 1 and lines[0][0] == '' and lines[0][2] == 'KJ' else None)
+        rep = {'kind': 'tunnel', 'case': [presented, [list(l) for l in lines]]}
+        if res == 'connected' and not want:
+            acc.violation('trust:untrusted-server-accepted:tunnel', 'the tunneled target presented %s; known_hosts %r vouches for it only through the jump '
+                          'host (or not at all), yet the connection was established (client sees peer %r)' % (presented, text, peer), rep)
+        if not want and log:
+            acc.violation('trust:credentials-sent-to-untrusted-server:tunnel', 'the target received %r' % (log,), rep)
+        if want and res != 'connected':
+            acc.violation('trust:trusted-server-rejected:tunnel', 'known_hosts %r, target presents %s: %s' % (text, presented, res), rep)
+        if res not in ('connected', 'HostKeyNotVerifiable', 'KeyExchangeFailed'):
+            acc.violation('trust:wrong-error:tunnel', res, rep)
+        if lexc:
+            acc.violation('trust:loop-exception:tunnel', repr(lexc[0].get('exception'))[:200], rep)
+    return acc
+
+
 def rekey_hostkey_case(how):
     """after a good login the server starts a re-exchange and proves a different host key: an unlisted one,
     a revoked one, or (control) the same trusted one"""
@@ -533,6 +643,8 @@ def main(tier, seed):
               ('blob-of-other-key', (('', '*', 'k1'), ('', '*', 'k2')), ('key', 'k2'))]]
     acc.merge(core.pmap(lying_worker, lying))
     acc.merge(core.pmap(rekey_hostkey_worker, [0]))
+    tc = tunnel_cases()
+    acc.merge(core.pmap(tunnel_worker, [tc[i::32] for i in range(32)]))
     ffiles = [((m1, p1, k1), (m2, p2, k2)) for m1 in MARKERS for p1 in (HOST, '*') for k1 in ('k1', 'k2')
               for m2 in MARKERS for p2 in (HOST, '*') for k2 in ('k1', 'k2')]
     acc.merge(core.pmap(forms_worker, [ffiles[i::32] for i in range(32)]))
@@ -548,7 +660,7 @@ def main(tier, seed):
             'of 2 lines (second line over a reduced pattern set in quick) x server credential (2 plain keys, '
             '12 host/user certificates: validity windows at the exact boundaries of the virtual clock, '
             'principal sets, wrong type, other CA, altered body) through a real handshake; independent '
-            'predicate decides; lying servers via refpeer; a re-exchange in which the server proves another (unlisted, revoked) key; 144 two-line files handed over as one file, lists of files with and without final newlines, object, callable; %d files of 0-2 lines x application callbacks accepting '
+            'predicate decides; lying servers via refpeer; a re-exchange in which the server proves another (unlisted, revoked) key; connections tunneled through a jump host with known_hosts lines for the names and addresses of both hosts; 144 two-line files handed over as one file, lists of files with and without final newlines, object, callable; %d files of 0-2 lines x application callbacks accepting '
             'unlisted host keys / CA keys / both x 7 credentials' % len(cfiles))
     return core.finish(PROP, tier, seed, 'model_checking', acc, t0, rule,
                        {'one_line_files': len(one), 'two_line_files': len(two), 'credentials': len(creds)},
@@ -569,6 +681,10 @@ def replay(rep):
         print(json.dumps(acc.violations[:3], indent=1, default=repr))
         return 1 if acc.violations else 0
     cred = None if 'cred' not in r else r['cred']
+    if r['kind'] == 'tunnel':
+        acc = tunnel_worker([(r['case'][0], tuple(tuple(l) for l in r['case'][1]))])
+        print(json.dumps(acc.violations[:3], indent=1, default=repr))
+        return 1 if acc.violations else 0
     if r['kind'] == 'forms':
         acc = forms_worker([tuple(tuple(l) for l in r['lines'])])
         print(json.dumps(acc.violations[:3], indent=1, default=repr))
